@@ -13,6 +13,7 @@
 //!   rel <i>                                       -> out=<msgs> | panic
 //!   canrun                                        -> true|false
 //!   run <tape>                                    -> outs=<msgs>|<msgs>.. calls=<log> | panic
+//!   inline <kind> <tape> a=.. [b=..] [go=..] [oo=..]  -> out=<batch> calls=<log> | panic   (in-tick order hooks)
 //!   enum <kind> <force> [q=..] [q2=..] [m=..] [m2=..]  -> n=<executions> set=<sorted outcomes>   (C37)
 mod drv;
 mod hooks;
@@ -101,6 +102,7 @@ enum Op {
     Rel(usize),
     CanRun,
     Run { tape: Vec<u64> },
+    Inline { kind: InlineKind, tape: Vec<u64>, a: Vec<V>, b: Vec<V>, ap: Vec<(K, V)>, bp: Vec<(K, V)> },
     Enum { kind: Kind, force: bool, q: Vec<V>, q2: Vec<V>, m: KMapData, m2: KMapData },
     Bad(String),
 }
@@ -118,6 +120,35 @@ fn kv_args(ws: &[&str]) -> Option<(Vec<V>, Vec<V>, KMapData, KMapData)> {
         }
     }
     Some((q, q2, m, m2))
+}
+
+fn parse_pairs(s: &str) -> Option<Vec<(K, V)>> {
+    if s == "-" {
+        return Some(vec![]);
+    }
+    s.split(',').map(|e| e.split_once(':').and_then(|(k, v)| Some((k.parse().ok()?, v.parse().ok()?)))).collect()
+}
+fn fmt_pairs(v: &[(K, V)]) -> String {
+    if v.is_empty() { "-".into() } else { v.iter().map(|(k, x)| format!("{k}:{x}")).collect::<Vec<_>>().join(",") }
+}
+fn parse_inline(kind: &str, tape: &str, rest: &[&str]) -> Option<Op> {
+    let kind = InlineKind::parse(kind)?;
+    let tape = parse_list::<u64>(tape, ',')?;
+    let (mut a, mut b, mut ap, mut bp) = (vec![], vec![], vec![], vec![]);
+    for w in rest {
+        let (k, v) = w.split_once('=')?;
+        match (k, kind.keyed()) {
+            ("a", false) => a = parse_list(v, ',')?,
+            ("b", false) => b = parse_list(v, ',')?,
+            ("a", true) => ap = parse_pairs(v)?,
+            ("b", true) => bp = parse_pairs(v)?,
+            ("go" | "oo", true) => {
+                parse_list::<K>(v, ',')?;
+            }
+            _ => return None,
+        }
+    }
+    Some(Op::Inline { kind, tape, a, b, ap, bp })
 }
 
 fn parse_op(line: &str) -> Op {
@@ -148,6 +179,7 @@ fn parse_op(line: &str) -> Op {
         },
         ["rel", i] => idx(i).map(Op::Rel).unwrap_or_else(bad),
         ["canrun"] => Op::CanRun,
+        ["inline", kind, tape, rest @ ..] => parse_inline(kind, tape, rest).unwrap_or_else(bad),
         ["run", t] => parse_list::<u64>(t, ',').map(|tape| Op::Run { tape }).unwrap_or_else(bad),
         ["enum", kind, f, rest @ ..] => match (Kind::parse(kind), *f, kv_args(rest)) {
             (Some(kind), "0" | "1", Some((q, q2, m, m2))) => Op::Enum { kind, force: *f == "1", q, q2, m, m2 },
@@ -623,6 +655,84 @@ impl Case {
                     }
                 }
             }
+            Op::Inline { kind, tape, a, b, ap, bp } => {
+                let mut line = format!("inline {} {}", kind.name(), fmt_tape(tape));
+                match (kind.keyed(), kind.two()) {
+                    (false, false) => line += &format!(" a={}", fmt_list(a)),
+                    (false, true) => line += &format!(" a={} b={}", fmt_list(a), fmt_list(b)),
+                    (true, false) => line += &format!(" a={}", fmt_pairs(ap)),
+                    (true, true) => line += &format!(" a={} b={}", fmt_pairs(ap), fmt_pairs(bp)),
+                }
+                if *kind == InlineKind::KOrder {
+                    let (go, oo) = keyed_order_maps(ap);
+                    line += &format!(" go={} oo={}", fmt_list(&go), fmt_list(&oo));
+                }
+                rec.count(&format!("inline:{}", kind.name()));
+                let (mut hook, mut out) = make_inline(*kind, a, b, ap, bp);
+                let site = kind.site();
+                rec.check(hook.pending_decision() && !hook.has_decision(), &format!("inline-state@{site}"), "fresh hook with input must be pending and undecided");
+                let (mut t, log) = drv::Tape::new(tape.clone());
+                let r = catch(AssertUnwindSafe(|| {
+                    hook.autonomous_decision(&mut Borrowed(&mut t));
+                    let decided = hook.has_decision();
+                    hook.release_decision(None);
+                    decided
+                }));
+                match r {
+                    Err(e) => {
+                        rec.check(false, &format!("panic@{site}"), &format!("{line}: {e}"));
+                        (line, "panic".into())
+                    }
+                    Ok(decided) => {
+                        rec.check(decided && !hook.has_decision() && !hook.pending_decision(), &format!("inline-state@{site}"), "decision must exist after autonomous_decision and be gone after release");
+                        let d = |o: &str| format!("{line} -> {o}");
+                        let ans = match &mut out {
+                            InlineOut::Items(rx) => {
+                                let batches = drain_vec(rx);
+                                let o: Vec<V> = batches.concat();
+                                rec.check(batches.len() == 1, &format!("not-one-batch@{site}"), &d(&fmt_list(&o)));
+                                let all = [a.clone(), b.clone()].concat();
+                                rec.check(sorted(o.clone()) == sorted(all.clone()), &format!("lost-or-duplicated@{site}"), &d(&fmt_list(&o)));
+                                if *kind == InlineKind::Merge {
+                                    rec.check(is_subseq(a, &o) && is_subseq(b, &o), &format!("input-order-broken@{site}"), &d(&fmt_list(&o)));
+                                }
+                                if o != all {
+                                    rec.nontrivial();
+                                }
+                                fmt_list(&o)
+                            }
+                            InlineOut::Pairs(rx) => {
+                                let batches = drain_vec(rx);
+                                let o: Vec<(K, V)> = batches.concat();
+                                rec.check(batches.len() == 1, &format!("not-one-batch@{site}"), &d(&fmt_pairs(&o)));
+                                let mut all = [ap.clone(), bp.clone()].concat();
+                                let mut so = o.clone();
+                                so.sort();
+                                all.sort();
+                                rec.check(so == all, &format!("lost-or-duplicated@{site}"), &d(&fmt_pairs(&o)));
+                                let vals = |l: &[(K, V)], k: K| l.iter().filter(|e| e.0 == k).map(|e| e.1).collect::<Vec<V>>();
+                                for k in o.iter().map(|e| e.0).collect::<std::collections::BTreeSet<K>>() {
+                                    let ok = vals(&o, k);
+                                    match kind {
+                                        InlineKind::POrder => rec.check(ok == vals(ap, k), &format!("key-order-broken@{site}"), &d(&fmt_pairs(&o))),
+                                        InlineKind::KMerge => rec.check(
+                                            is_subseq(&vals(ap, k), &ok) && is_subseq(&vals(bp, k), &ok),
+                                            &format!("input-order-broken@{site}"),
+                                            &d(&fmt_pairs(&o)),
+                                        ),
+                                        _ => {}
+                                    }
+                                }
+                                if o != [ap.clone(), bp.clone()].concat() {
+                                    rec.nontrivial();
+                                }
+                                fmt_pairs(&o)
+                            }
+                        };
+                        (line, format!("out={ans} calls={}", fmt_calls(&log.borrow())))
+                    }
+                }
+            }
             Op::Enum { kind, force, q, q2, m, m2 } => {
                 // observed order first (the op line must carry it)
                 let (_, h0) = make(*kind, q, q2, m, m2);
@@ -841,6 +951,33 @@ fn gen_case_c36(idx: u64, g: &mut Gen, rec: &mut Recorder, cases: u64) {
         for _ in 0..n {
             let l = *g.rng.pick(&lines);
             run_ops(&mut case, rec, &[parse_op(l)]);
+        }
+        return;
+    }
+    if g.rng.chance(1, 6) {
+        // the in-tick order hooks: one decision on a fresh batch
+        let kind = *g.rng.pick(&INLINE_KINDS);
+        rec.case(idx, &format!("inline kind={}", kind.name()));
+        let n = 1 + g.rng.below(3);
+        for _ in 0..n {
+            let (mut a, mut b, mut ap, mut bp) = (vec![], vec![], vec![], vec![]);
+            let na = g.rng.below(5) as usize;
+            let nb = g.rng.below(4) as usize;
+            if kind.keyed() {
+                let nk = 1 + g.rng.below(3) as usize;
+                let ks = g.keys(nk);
+                ap = g.vals(na).into_iter().map(|v| (*g.rng.pick(&ks), v)).collect();
+                if kind.two() {
+                    bp = g.vals(nb).into_iter().map(|v| (*g.rng.pick(&ks), v)).collect();
+                }
+            } else {
+                a = g.vals(na);
+                if kind.two() {
+                    b = g.vals(nb);
+                }
+            }
+            let tape = g.tape();
+            run_ops(&mut case, rec, &[Op::Inline { kind, tape, a, b, ap, bp }]);
         }
         return;
     }
